@@ -493,7 +493,8 @@ handle_arglist(spif_int32_t n, spif_charptr_t val_ptr, unsigned char hasequal,
         tmp = (spif_charptr_t *) MALLOC(sizeof(spif_charptr_t ) * (argc - i + 1));
 
         for (k = 0; k < len; k++) {
-            tmp[k] = (spif_charptr_t) STRDUP(argv[k + i]);
+            /* The first word is the value itself: it may be attached to the option ("-eWORD"). */
+            tmp[k] = (spif_charptr_t) STRDUP((k == 0) ? (val_ptr) : (SPIF_CHARPTR(argv[k + i])));
             D_OPTIONS(("tmp[%d] == %s\n", k, tmp[k]));
         }
         tmp[k] = (spif_charptr_t) NULL;
